@@ -209,6 +209,7 @@ public:
     static World* cur;                // the world of the running scenario (one per process at a time)
 
     vu::Rng rng;
+    vu::Rng chunk_rng;                   // read-size draws only: runs that differ in chunking alone see the same broker/network choices
     History h;
     NetCfg net;
     std::vector<AttemptPlan> attempts;   // indexed by attempt number; beyond the end: default plan
